@@ -72,12 +72,15 @@ TOLERANCES = {
     'equality': '|f(x)+f*(y)-<x,y>| <= same tolerance (+ 1e-8*gap(y0) when '
                 'the sub-gradient had to be pulled inside dom f* by 1e-8, '
                 'bound from convexity of f*)',
-    'conj_value': '|f*(y)-ref| <= 512*eps*n*(1+|ref|+sum w(|y|+y^2)); '
+    'conj_value': '|f*(y)-ref| <= 512*eps*n*(1+|ref|+sum w(|y|+y^2)) + the '
+                  'change of the reference under a 32-ulp input '
+                  'perturbation (conditioning next to the boundary); '
                   'domain membership is only judged when the reference '
                   'residual is > 1e3*eps*scale away from 0',
     'adversarial': 'boundary offset delta = 1e-6 (float64) / 2e-3 (float32) '
                    'relative',
-    'biconj': '|f**(x)-f(x)| <= 512*eps*n*(1+|f|+sum w x^2)',
+    'biconj': '|f**(x)-f(x)| <= 512*eps*n*(1+|f|+sum w x^2) + the change '
+              'of the reference value under a 32-ulp input perturbation',
     'moreau': 'max|prox_sf(x)+s*prox_{f*/s}(x/s)-x| <= (256*eps + 40*'
               'resolution(dtype))*(1+max|x|+s*max|p2|) (the library shrinks '
               'some thresholds by 10*resolution on purpose)',
@@ -700,6 +703,17 @@ def _check_node(B, pts, top, fd, ctx, probe=True):
                 finite_hits[0] += 1
                 t = K_TOL * eps * max(n, 1) * (
                     1.0 + abs(a) + float(np.sum(geo.w * xf * xf)))
+                if ref is not None and ref.value(xf) is not None:
+                    # conditioning next to the boundary of dom f (see
+                    # conj_vs_ref)
+                    dx = 32 * eps * (np.abs(xf) + 1.0)
+                    r0 = ref.value(xf)
+                    r1, r2 = ref.value(xf + dx), ref.value(xf - dx)
+                    if not (np.isfinite(r1) and np.isfinite(r2) and
+                            np.isfinite(r0)):
+                        note('boundary_skipped')
+                        continue
+                    t += 4 * (abs(r1 - r0) + abs(r2 - r0))
                 if abs(a - b) > t:
                     raise Violation(
                         sig('biconj'),
